@@ -90,6 +90,17 @@ Bind(d) ==
                          [d.groups[g].dets[k] EXCEPT !.serial = SerialFor(d.groups[g].dets[k].id)]]]],
      !.acts = [k \in DOMAIN d.acts |-> [d.acts[k] EXCEPT !.serial = SerialFor(d.acts[k].id)]]]
 
+\* the same, but looking only at a slice of pend: two rulesets of one unit may be copies of the same base and carry
+\* the same plugin ids, so each is bound to the segment of Init events its own construction produced
+BindIn(d, slice) ==
+  LET Ser(id) == slice[CHOOSE i \in DOMAIN slice : slice[i].id = id].serial IN
+  [d EXCEPT
+     !.groups = [g \in DOMAIN d.groups |->
+                   [d.groups[g] EXCEPT !.dets =
+                      [k \in DOMAIN d.groups[g].dets |->
+                         [d.groups[g].dets[k] EXCEPT !.serial = Ser(d.groups[g].dets[k].id)]]]],
+     !.acts = [k \in DOMAIN d.acts |-> [d.acts[k] EXCEPT !.serial = Ser(d.acts[k].id)]]]
+
 Enabled(b) == ~(defs[b.rk].dod /\ Len(b.dropins) > 0)
 
 \* Component-wise pattern match: "*" stands for exactly one whole component.
@@ -282,7 +293,11 @@ DropAdd(tag, unit, ok) ==
           /\ pend = <<>>
           /\ UNCHANGED <<defs, st, bases, insts, hooks, nextRk, pend, stats, lastStop, ops>>
      ELSE LET n == Len(unit.rulesets)
-              newDefs == [j \in 1..n |-> Bind(Merged(unit.rulesets[j], tag))]
+              RECURSIVE Off(_)
+              Off(j) == IF j = 1 THEN 0 ELSE Off(j - 1) + Len(MergedPendIds(unit.rulesets[j - 1]))
+              newDefs == [j \in 1..n |->
+                            BindIn(Merged(unit.rulesets[j], tag),
+                                   SubSeq(pend, Off(j) + 1, Off(j) + Len(MergedPendIds(unit.rulesets[j]))))]
           IN
           /\ PendIds = FlattenSeq([j \in 1..n |-> MergedPendIds(unit.rulesets[j])])
           /\ defs' = defs \o newDefs
